@@ -1,3 +1,5 @@
+import KmipGen.CodecSrc
+import KmipModel.ExpectCodec
 import KmipModel.Client
 import KmipModel.ExpectSkel
 import KmipGen.Schema
@@ -27,5 +29,17 @@ theorem GenC14_send_skeleton : KmipGen.skel_Client_Send = ExpectSkel.skel_Client
 theorem GenC14_discover_skeleton : KmipGen.skel_Client_DiscoverVersions = ExpectSkel.skel_Client_DiscoverVersions := by decide
 theorem GenC14_connect_skeleton : KmipGen.skel_Client_Connect = ExpectSkel.skel_Client_Connect := by decide
 theorem GenC14_close_skeleton : KmipGen.skel_Client_Close = ExpectSkel.skel_Client_Close := by decide
+
+end Kmip
+
+/-
+  Codec source tie (re-checked against /repo's current source on every run): the normalised source of every function of
+  the groups below, as kvscan reads it from /repo now, is the text the model was validated against (KmipModel/ExpectCodec.lean;
+  readable form in KmipModel/ExpectCodecSrc.txt). See harness/cmd/kvscan/srcdigest.go for the normalisation.
+-/
+namespace Kmip
+
+/-- protocol errors (errors.go) -/
+theorem GenC14_codec_src_err : KmipGen.codecSrc_err = ExpectCodec.codecSrc_err := by decide
 
 end Kmip
